@@ -19,3 +19,9 @@ import Reamber.Props.C15
 #print axioms Reamber.PermInv.n15a_object_dtype_counterexample
 #print axioms Reamber.PermInv.write_qua_perm
 #print axioms Reamber.PermInv.convert_one_perm
+#print axioms Reamber.PermInv.projRows_rowPerm
+#print axioms Reamber.PermInv.convert_one_rowperm
+#print axioms Reamber.PermInv.hitsound_copy_perm
+#print axioms Reamber.PermInv.write_osu_perm
+#print axioms Reamber.PermInv.beats_any_order
+#print axioms Reamber.PermInv.write_sm_perm_partial
